@@ -222,7 +222,7 @@ Record oracle_laws (O : oracles) : Prop := mkLaws {
    including NaN, print and re-parse to the same bits) *)
 Record accept_laws (O : oracles) : Prop := mkALaws {
   alaw_quote : quote_laws O;
-  alaw_time : forall s t, o_parse_time O s = Some t -> time_ok O t;
+  alaw_time : forall s t, o_parse_time O s = Some t -> off_printable t = true -> time_ok O t;
   alaw_float : forall s b, o_parse_float O s = Some b -> float_ok O b
 }.
 
